@@ -190,6 +190,8 @@ func featureKeys(f feature) []string {
 		switch f.Type.Go() {
 		case "Plain":
 			return []string{"p"}
+		case "lower":
+			return []string{"l"}
 		default:
 			return []string{"a"}
 		}
@@ -296,7 +298,9 @@ func c16(args []string) {
 	}
 	cov := map[string]int{}
 	var viols []violation
-	addV := func(key, what string, in, detail interface{}) { viols = append(viols, violation{key, what, in, detail}) }
+	addV := func(key, what string, in, detail interface{}) {
+		viols = append(viols, violation{key, what, in, detail})
+	}
 	sw, err := codescan.Run(&codescan.Options{Packages: []string{"./m"}, WorkDir: dir, ScanModels: true, SetXNullableForPointers: true})
 	if err != nil {
 		addV("c16/scan-fails", "codescan.Run fails on a well-typed model package", map[string]interface{}{"package": packageSource(feats)}, err.Error())
